@@ -100,6 +100,9 @@ func (h c15CmdHandlerA) Handle(ctx context.Context, v any) error {
 	h.log.gotA = append(h.log.gotA, *v.(*c15A))
 	h.log.ptrsA = append(h.log.ptrsA, v.(*c15A))
 	h.log.origOK = append(h.log.origOK, OriginalMessageFromCtx(ctx) == h.log.current)
+	// a handler owns the value it is given: it may normalise it in place
+	v.(*c15A).N++
+	v.(*c15A).S = "edited by handler " + strconv.Itoa(h.id)
 	if h.fail {
 		return errScripted
 	}
@@ -118,6 +121,7 @@ func (h c15HandlerB) Handle(ctx context.Context, v any) error {
 	h.log.who = append(h.log.who, h.id)
 	h.log.gotB = append(h.log.gotB, *v.(*c15B))
 	h.log.origOK = append(h.log.origOK, OriginalMessageFromCtx(ctx) == h.log.current)
+	*v.(*c15B) = c15B{}
 	if h.fail {
 		return errScripted
 	}
@@ -159,7 +163,7 @@ func HarnessC15Command() {
 		log.current = pub.msgs[1]
 		_ = fn(pub.msgs[1])
 		vrt.Assert(len(log.gotA) == 2 && log.gotA[1] == a2, "the second command arrives with its own value")
-		vrt.Assert(len(log.ptrsA) == 2 && *log.ptrsA[0] == a, "the value handed to the first invocation is not overwritten by a later command")
+		vrt.Assert(len(log.ptrsA) == 2 && *log.ptrsA[0] == (c15A{N: a.N + 1, S: "edited by handler " + strconv.Itoa(log.who[0])}), "the value handed to the first invocation (as that handler left it) is not overwritten by a later command")
 		vrt.Assert(log.origOK[0], "the handler's context exposes the original message")
 		vrt.Assert((herr != nil) == (hfail && !ackErrors), "a handler error means Nack unless AckCommandHandlingErrors")
 	case 1, 2:
